@@ -369,5 +369,12 @@ def rule_order(ctx):
     c05a(ctx)
 
 
+def rule_i(ctx):
+    """Nothing is emitted on a stream after both directions completed: shared C09.a (cancel paths of the requesters,
+    including the request-response callback after a terminal frame) and C07.b (no signal / frame after a terminal)."""
+    from .c09 import rule_a as c09a
+    c09a(ctx)
+
+
 RULES = [('C08.a', rule_a), ('C08.b', rule_b), ('C08.c', rule_c), ('C08.d', rule_d), ('C08.e', rule_e),
-         ('C08.f', rule_f), ('C08.g', rule_g), ('C05.a', rule_order), ('C13.a+C16.b', rule_h)]
+         ('C08.f', rule_f), ('C08.g', rule_g), ('C05.a', rule_order), ('C13.a+C16.b', rule_h), ('C09.a', rule_i)]
